@@ -790,14 +790,54 @@ Proof.
   - apply recv_id_ok. exact Hinv.
 Qed.
 
-Lemma open_accept_errors e :
-  open_bidi (Err e) = Err (HConnErr (spec_conn_class e)) /\
-  open_send (Err e) = Err (HConnErr (spec_conn_class e)) /\
+Lemma site_error_spec site e :
+  In site [site_conn_close; site_conn_opener; site_conn_poll_accept_bidi; site_conn_poll_accept_recv;
+    site_conn_poll_open_bidi; site_conn_poll_open_send; site_opener_clone; site_opener_close;
+    site_opener_poll_open_bidi; site_opener_poll_open_send] ->
+  site_error site e = Ok (spec_conn_class e).
+Proof. intros H. unfold site_error. rewrite (fact_sites site H). apply convert_connection_error_spec. Qed.
+
+(* both `impl OpenStreams` (Connection itself; the handle from opener() and its clones) and both accepts *)
+Lemma open_accept_errors w e :
+  open_bidi w (Err e) = Err (HConnErr (spec_conn_class e)) /\
+  open_send w (Err e) = Err (HConnErr (spec_conn_class e)) /\
   accept_recv (Err e) = Err (spec_conn_class e) /\
   accept_bidi (Err e) = Err (spec_conn_class e).
 Proof.
-  unfold open_bidi, open_send, accept_recv, accept_bidi. rewrite convert_connection_error_spec. repeat split.
+  unfold open_bidi, open_send, accept_recv, accept_bidi, open_bidi_site, open_send_site.
+  destruct w; rewrite !site_error_spec by (cbn; tauto); repeat split.
 Qed.
+
+Lemma conn_close_spec w code : code <= varint_max -> conn_close w code = Ok code.
+Proof.
+  intros H. unfold conn_close, close_site. destruct w; rewrite fact_sites by (cbn; tauto);
+    destruct (N.ltb_spec varint_max code); try lia; reflexivity.
+Qed.
+
+(* ---- poll_finish does not look at `writing` ---- *)
+
+(* whenever nothing is waiting, Quinn has been handed everything that was accepted *)
+Lemma nothing_pending_all_handed :
+  forall ops id o tr s' o',
+    send_run ops (send_new (qsend_new id)) o = (tr, s', o') -> s_writing s' = None ->
+    qs_log (s_q s') = spec_handed (map abs_send tr).
+Proof.
+  intros ops id o tr s' o' H Hw. destruct (send_run_exact _ _ _ _ _ _ H) as (E1 & _).
+  rewrite Hw in E1. cbn [view_opt send_new s_q s_writing qsend_new qs_log app] in E1. rewrite app_nil_r in E1. exact E1.
+Qed.
+
+(* REFUTED clause: "a successful finish means every accepted buffer was handed over".  poll_finish calls
+   Quinn's finish() whatever `writing` holds: after a write that was left pending (the caller stopped
+   polling poll_ready, i.e. dropped h3's send future) it returns Ok, the stream is finished, and the rest
+   of the accepted buffer never reaches Quinn. *)
+Lemma finish_while_writing_truncates :
+  let ops := [OSendData [[0; 4]; [1; 2; 3; 4]]; OPollReady; OPollFinish] in
+  let o := [WAccept 2; WAccept 1; WBlocked] in
+  exists tr s' o', send_run ops (send_new (qsend_new 0)) o = (tr, s', o') /\
+    map snd tr = [SRUnit (Ok tt); SRPoll Pending; SRPoll (Ready (Ok tt))] /\
+    qs_finished (s_q s') = true /\
+    qs_log (s_q s') = [0; 4; 1] /\ spec_handed (map abs_send tr) = [0; 4; 1; 2; 3; 4].
+Proof. do 3 eexists. split; [vm_compute; reflexivity|]. repeat split; vm_compute; reflexivity. Qed.
 
 Lemma reset_code_spec c : reset_code c = Ok (spec_reset_code c).
 Proof.
